@@ -848,9 +848,11 @@ def _reuse_placement(repo, ob, failure):
              ("circle", '<svg><specs><circle id="t" cxy="0" r="5"/></specs><reuse href="#t" x="20" y="30"/></svg>', r'<circle cx="25" cy="35" r="5"'),
              ("group", '<svg><specs><g id="t"><rect wh="5"/></g></specs><reuse href="#t" x="20" y="30"/></svg>', r'<g [^>]*transform="translate\(20, 30\)"'),
              ("via_transform", '<svg><specs><polyline id="t" points="0 0 10 5"/></specs><reuse href="#t" x="-20" y="-30"/></svg>', r'<polyline [^>]*transform="translate\(-20, -30\)"'),
-             ("via_transform", '<svg><specs><polyline id="t" points="0 0 10 5"/></specs><reuse href="#t" x="-15"/></svg>', r'<polyline [^>]*transform="translate\(-15, 0\)"')]
+             ("via_transform", '<svg><specs><polyline id="t" points="0 0 10 5"/></specs><reuse href="#t" x="-15"/></svg>', r'<polyline [^>]*transform="translate\(-15, 0\)"'),
+             ("no_position", '<svg><specs><rect id="t" cx="$a" cy="5" wh="4"/></specs><reuse href="#t" a="10"/></svg>', r'<rect x="8" y="3" width="4" height="4"'),
+             ("no_position", '<svg><specs><rect id="u" wh="10" dx="3" dw="3"/></specs><reuse href="#u"/></svg>', r'<rect x="3" width="13" height="10"')]
     mine = [c for c in cases if ("place." + c[0]) in lab]
-    cases = mine or [c for c in cases if c[0] in ("rectlike", "circle", "group", "via_transform")]     # never hand another obligation's known witness out
+    cases = mine or [c for c in cases if c[0] in ("rectlike", "circle", "group", "via_transform", "no_position")]     # never hand another obligation's known witness out
     for kind, doc, want in cases:
         r = run_svgdx(repo, doc)
         if r["rc"] != 0:
